@@ -518,6 +518,22 @@ def r12_enumerate(text, base_line=0):
         text = text[:m.start()] + new + text[m.end():]
 
 
+def r15_iter(text, base_line=0):
+    """R15: `for P in E.iter() {` -> `for __ixN in 0..E.len() { let P = &E[__ixN];` (slice iterator visits elements in index order)"""
+    log = []
+    pat = re.compile(r"for\s+(\w+)\s+in\s+([\w\.\[\]]+?)\.iter\(\)\s*\{")
+    n = 0
+    while True:
+        m = pat.search(text)
+        if not m:
+            return text, log
+        n += 1
+        p, e = m.groups()
+        new = "for __ix%d in 0..%s.len() { let %s = &%s[__ix%d];" % (n, e, p, e, n)
+        log.append("R15 line %d: `%s` -> `%s`" % (base_line + text.count("\n", 0, m.start()), " ".join(m.group(0).split()), new))
+        text = text[:m.start()] + new + text[m.end():]
+
+
 def r11_deref_ref_operand(text, base_line=0):
     """R11: explicit copies for `&f32` closure parameters are NOT inserted here; kept as placeholder"""
     return text, []
@@ -526,9 +542,9 @@ def r11_deref_ref_operand(text, base_line=0):
 REWRITES = {
     "R1": r1_compound_assign, "R2": r2_unary_minus, "R3": r3_scale_call, "R6": r6_for_with_continue,
     "R7": r7_isqrt, "R8": r8_step_by, "R9": r9_consts, "R10": r10_tail_continue,
-    "R12": r12_enumerate, "R13": r13_panic_allowed, "R14": r14_panic_forbidden,
+    "R12": r12_enumerate, "R15": r15_iter, "R13": r13_panic_allowed, "R14": r14_panic_forbidden,
 }
-ORDER = ["R13", "R14", "R12", "R10", "R8", "R6", "R9", "R7", "R3", "R1", "R2"]
+ORDER = ["R13", "R14", "R12", "R15", "R10", "R8", "R6", "R9", "R7", "R3", "R1", "R2"]
 
 
 def apply_rewrites(text, names, base_line):
